@@ -690,6 +690,8 @@ impl Parser {
         self.state = EngineState::Default;
         buf.reset_terminal();
         caret.reset();
+        // home is the first visible line, not line 0 of the scrollback
+        caret.home(buf);
     }
 
     /// Sequence: `CSI Ps1 ; Ps2 * r`</p>
